@@ -111,6 +111,7 @@ func loadProgram(dir string, extraEnv []string, overlay map[string][]byte) *Prog
 	// call graphs are built from the program as written; the normal form below only changes function bodies
 	p.cgCHA = cha.CallGraph(p.SSA)
 	p.cgVTA = vta.CallGraph(p.AllFuncs, p.cgCHA)
+	theProgram = p
 	p.normalise()
 	for fn := range p.AllFuncs {
 		if fn.Pkg != nil && strings.HasPrefix(fn.Pkg.Pkg.Path(), modPath) && len(fn.Blocks) > 0 {
